@@ -267,7 +267,8 @@ class Interp(Ops):
                 else:
                     raise OutsideSubset("name %s not found in %s" % (attr, modname))
             else:
-                v = ExternalRef("%s.%s" % (modname, attr))
+                full = "%s.%s" % (modname, attr)
+                v = B.EXTERNALS_ATTR[full]() if full in B.EXTERNALS_ATTR else ExternalRef(full)
         elif kind in ("assign", "assign_idx"):
             fr = Frame(mod, {}, label="<module %s>" % mod.name)
             self.frames.append(fr)
